@@ -369,7 +369,8 @@ func zeroFS(p string, sub bool) (out string, err error) {
 	defer os.Remove(name)
 	fsys := template.TrustedFS{}
 	if sub {
-		fsys, err = fsys.Sub(template.TrustedSourceFromConstant("."))
+		// (not ".": fs.Sub hands the file system itself back for it)
+		fsys, err = fsys.Sub(template.TrustedSourceFromConstant("d"))
 		if err != nil {
 			return "", err
 		}
@@ -558,6 +559,9 @@ func checkTaint(c TaintCase) evid.Outcome {
 	o := evid.Outcome{Key: c.Adapter + "|" + c.Payload, NonTrivial: true}
 	if err != nil {
 		o.Labels = append(o.Labels, "refused")
+		if strings.HasPrefix(err.Error(), "panicked:") {
+			return evid.Viol("%s panicked on the payload %q: %v", c.Adapter, c.Payload, err)
+		}
 		if out != "" {
 			return evid.Viol("%s refused the payload %q (%v) and still returned a non-zero safe-type value: %q", c.Adapter, c.Payload, err, out)
 		}
